@@ -363,6 +363,13 @@ class Ctx:
         self.coq = None
         self.known = known_findings(pid)
         self.quick = tier == "quick"
+        if not replay:
+            import glob
+            for f in glob.glob(os.path.join(VERIF, "replays", f"{pid}-{tier}-*.json")):
+                try:
+                    os.remove(f)
+                except OSError:
+                    pass
 
     def n(self, quick, thorough):
         return quick if self.quick else thorough
